@@ -535,6 +535,22 @@ impl SessionEngine {
         final(self).outgoing.sent@ == old(self).outgoing.sent@,                                                    // [C13.session.nothing-after-end] tearing the engine down writes nothing on the session's channel
 //@@ end
 }
+impl SessionEngine {
+//@@ fn file=fe2o3-amqp/src/session/engine.rs impl=`~impl<S>SessionEngine<S>whereS:endpoint::SessionEndpoint<State=SessionState>+SendBound+Sync+'static,` name=event_loop as=event_loop_arm_link_frames
+//@@ selectarm `frame = self.outgoing_link_frames.recv()`
+//@@ addparam frame: Option<LinkFrame>
+//@@ addparam outgoing_link_frames_done: &mut bool
+//@@ param tx : SessOutcomeTx
+//@@ ret (Result<Running, SessionInnerError>, bool)
+//@@ subst `(mut self,` => `(&mut self,` rule=R32
+//@@ subst `outgoing_link_frames_done` => `(*outgoing_link_frames_done)` rule=optional-R33
+//@@ spec
+    requires
+        frame is Some ==> !(frame->Some_0 is Acquisition),
+    ensures
+        frame is None ==> !r.1,      // [C15.engine.closed-channel-not-polled-again] `recv()` on the links' frame channel yields None only when the channel is closed and drained (after session.end() / the handle and all links dropped) -- and from then on it yields None IMMEDIATELY on every poll: the branch of the select loop that polls it is disabled once it has seen None. Otherwise the engine task is runnable all the time while it waits for the peer's End (one core at 100 %, for as long as the peer likes)
+//@@ end
+}
 /// session::Error (session/error.rs) and `impl From<SessionInnerError> for Error` (variant-wise, R11)
 pub enum SessError { UnattachedHandle, RemoteAttachingLinkNameNotFound, HandleInUse, IllegalState, ConnectionStopped(ConnectionStopReason), TransferFrameToSender, RemoteEnded, RemoteEndedWithError(AmqpError), UnknownTxnId }
 pub open spec fn inner_to_sess_error(e: SessionInnerError) -> SessError {
